@@ -16,7 +16,7 @@ import re
 import core
 
 KINDS = ("process", "process16", "procrelay", "policy", "hdrc", "utf16c", "authpayload", "matchauth", "clientip",
-         "paa", "usertok", "handshake", "tunnel", "config", "ntlm", "relay", "segment", "oidc")
+         "paa", "usertok", "handshake", "tunnel", "config", "ntlm", "relay", "segment", "oidc", "serving", "handshakegw")
 MAX_LINE = 1500      # characters of a case line: keeps the generated file small
 SAMPLE = 150
 
@@ -135,6 +135,11 @@ def term(c):
         idp = f[1].split(":")
         sub = "(Some %s)" % blist(hexf(idp[1])) if idp[0] == "valid" and len(idp) == 2 else "None"
         return "paa_obs (%s)%%Z %s %s" % (f[0], sub, tok)
+    if k == "serving":
+        m = f[0]
+        return "serving_obs %s %s %s %s %s" % tuple(coq_bool(ch) for ch in m[:5])
+    if k == "handshakegw":
+        return "handshakegw_obs %s %s %s" % (coq_bool(f[0]), coq_bool(f[1]), blist(hexf(f[3])))
     if k == "handshake":
         return "handshake_obs %s %s %s" % (coq_bool(f[0]), coq_bool(f[1]), blist(hexf(f[2])))
     if k == "tunnel":
